@@ -565,7 +565,8 @@ PROPS['C06'] = dict(
              quick=30000, thorough=1500000,
              require=['c06.remote_entries_checked', 'c06.worker_deliveries_checked',
                       'c06.frozen_sections_checked', 'c06.worker_kind.wsink',
-                      'c06.worker_kind.wlin']),
+                      'c06.worker_kind.wlin', 'c06.programs_with_mutex',
+                      'c06.remote_entered_inside_frozen_window']),
         dict(name='worker-serial-asan', bin='xworker', variant='asan', mode='serial',
              quick=12000, thorough=400000),
         dict(name='worker-free-tsan', bin='xworker', variant='tsan', mode='free',
